@@ -201,7 +201,7 @@ func check(c *enum.Ctx, k kase) {
 }
 
 func run(c *enum.Ctx) {
-	c.Rule("BED: product of chrom {c, 'chr 1'} x (start,end) pairs over {-1,0,1,7,MaxInt64,MinInt64} x name {n,'a b','x#'} x score {-1,0,7,MaxInt64} x strand 3 x thick pairs x rgb {zero,(1,2,3),(0,0,0) opaque,(255,255,255)} x blocks 1..3, for record types 3/4/5/6/12 x every writer width <= type (reader at the same width), single records and pairs; one reader whose exported BedType field is stepped from line to line (5 width sequences); GFF: seqname/source/feature with and without inner space x start {0,1,9,-3} x length {1,5,big} x score {nil,0,-1.5,0.1,1e-300,MaxFloat64,+Inf,-Inf} x strand 3 x frame 4 x attribute lists {none,[ID x],[Tag_1 'v w',t2 ''],three incl. digits in tags} x comments {'', 'c d'} x header on/off; sequence-region lines; inline DNA/RNA/protein sequences of length 1..5 and 61 at widths 1,2,60; mixed files; every third case again behind a line the reader rejects (read first, its outcome ignored); non-trivial = every case (each writes at least one record)")
+	c.Rule("BED: product of chrom {c, 'chr 1'} x (start,end) pairs over {-1,0,1,7,MaxInt64,MinInt64} x name {n,'a b','x#'} x score {-1,0,7,MaxInt64} x strand 3 x thick pairs x rgb {zero,(1,2,3),(0,0,0) opaque,(255,255,255)} x blocks 1..3, for record types 3/4/5/6/12 x every writer width <= type (reader at the same width), single records and pairs; one reader whose exported BedType field is stepped from line to line (5 width sequences); GFF: seqname/source/feature with and without inner space x start {0,1,9,-3} x length {1,5,big} x score {nil,0,-1.5,0.1,1e-300,MaxFloat64,+Inf,-Inf} x strand 3 x frame 4 x attribute lists {none,[ID x],[Tag_1 'v w',t2 ''],three incl. digits in tags, a tag that occurs twice (adjacent and apart)} x comments {'', 'c d'} x header on/off; sequence-region lines; inline DNA/RNA/protein sequences of length 1..5 and 61 at widths 1,2,60; mixed files; every third case again behind a line the reader rejects (read first, its outcome ignored); non-trivial = every case (each writes at least one record)")
 	c.Assume("text fields are non-empty, tab-free, trimmed and do not start with '#'; BED12 has at least one block; GFF features have positive length; attribute values contain no ';'; colours are zero or opaque; NaN scores are excluded; nil and empty attribute lists are the same thing")
 	const maxI, minI = int(^uint(0) >> 1), -int(^uint(0)>>1) - 1
 	var cases []kase
@@ -281,7 +281,8 @@ func run(c *enum.Ctx) {
 	}
 	// GFF
 	scores := []string{"", "0", "-1.5", "0.1", "tiny", "max", "+Inf", "-Inf", "3"}
-	attrs := [][]featgen.Attr{nil, {{"ID", "x"}}, {{"Tag_1", "v w"}, {"t2", ""}}, {{"a", "1"}, {"B2b", "\"quoted text\""}, {"c_3", "z"}}}
+	attrs := [][]featgen.Attr{nil, {{"ID", "x"}}, {{"Tag_1", "v w"}, {"t2", ""}}, {{"a", "1"}, {"B2b", "\"quoted text\""}, {"c_3", "z"}},
+		{{"Note", "a"}, {"Note", "b"}}, {{"Note", "a"}, {"ID", "x"}, {"Note", "a"}}} // a tag may occur more than once
 	var gffs []featgen.Gff
 	for _, names := range [][3]string{{"seq", "src", "feat"}, {"my seq", "a src", "the feat"}} {
 		for _, start := range []int{0, 1, 9, -3} {
